@@ -478,10 +478,18 @@ class TopKRetrieval(base.MergeableMetric, base.HasAsAggFn):
     max_pred_count = min(max_pred_count, max(k_list))
     tp = []
     for y_pred_row, y_true_row in zip(y_pred, y_true):
-      tp.append([
-          int(y_pred_row[i] in y_true_row) if i < len(y_pred_row) else 0
-          for i in range(max_pred_count)
-      ])
+      # An item can only be retrieved once: a prediction that repeats an earlier
+      # one of the same row is not another hit (keeps every rate within [0, 1]).
+      seen = set()
+      tp_row = []
+      for i in range(max_pred_count):
+        hit = False
+        if i < len(y_pred_row):
+          item = y_pred_row[i]
+          hit = item in y_true_row and item not in seen
+          seen.add(item)
+        tp_row.append(int(hit))
+      tp.append(tp_row)
     tp = np.asarray(tp)
     # True positives at TopK is of a dimension of Examples x K as the following:
     # The first dimension is always batch dimension (# examples), the second
